@@ -68,6 +68,11 @@ ASSUMPTIONS = [
 ]
 LEVEL = "exploration"
 
+# Length of the very first ToggleSignal phase after a reset/start: "docstring" asserts the docstring (first_duration
+# ticks in first_state; the implementation and the upstream ToggleMock give first_duration-1 -> known finding
+# C16-toggle-first-phase-one-tick-short); "unspecified" only counts it (label toggle:first_phase_one_tick_short).
+TOGGLE_FIRST_PHASE = "docstring"
+
 
 # ======================================================================================= cells
 def _wait_cells(tier):
@@ -374,7 +379,7 @@ def _check_wait(case, out):
                 idx = 0 if bad[0][0] == "resume_1" else 1
                 w = ws[idx]
                 sig = {"util": "wait_for", "api": w["api"], "n_kind": w["kind"], "n": _n_class(ns[idx]),
-                       "allow_zero": bool(w.get("allow_zero")), "position": idx, "obs": "resume_distance"}
+                       "allow_zero": bool(w.get("allow_zero")) and ns[idx] == 0, "position": idx, "obs": "resume_distance"}
                 out.add(sig, f"waits {ws} with n = {ns}: " + "; ".join(x for _o, x in bad)
                         + f" (reached at clocks {sorted(e - total for e in mon.exp_after)})")
                 break
@@ -450,7 +455,7 @@ def _check_delay(case, out):
                         if m.taps.get(k) is not None and sim.get(f"o_t{k}") != m.taps[k]:
                             bad.append(("tap", f"line[{k}] = {sim.get(f'o_t{k}')}, expected {m.taps[k]}"))
                 if bad:
-                    out.add({"util": "delayed", "usage": usage, "n": _n_class(n), "initial": cfg["init"], "obs": bad[0][0]},
+                    out.add({"util": "delayed", "usage": usage, "n": _n_class(n), "obs": bad[0][0]},
                             f"{cfg}, inputs (value, en) {seq[:t + 1]}: clock {t}: " + "; ".join(x for _o, x in bad))
                     return
             if n >= 1 and len(seq) > n + 1:
@@ -563,7 +568,7 @@ def _check_gen(case, out):
     cb = bool(cfg.get("callbacks"))
     base = {"util": "ClockDivider" if fam == "clkdiv" else "ToggleSignal",
             "period_kind": cfg["p0"]["kind"] + ("" if fam == "clkdiv" or cfg.get("p1") is None else "+" + cfg["p1"]["kind"]),
-            "drive": drive, "require_enable": bool(cfg.get("require_enable"))}
+            "enable_ctl": drive != "none"}
     runs = 0
     edge_inside = False
     try:
@@ -656,6 +661,11 @@ def _toggle_stretch(out, base, cfg, case, first, second, obs, seq, t_end):
     if got == exp:
         return False
     if first >= 1 and got == M.toggle_expected(first, second, fs, len(obs), short_first=True):
+        out.counters["toggle_first_phase_one_tick_short"] = out.counters.get("toggle_first_phase_one_tick_short", 0) + 1
+        if TOGGLE_FIRST_PHASE != "docstring":
+            if "toggle:first_phase_one_tick_short" not in out.labels:
+                out.labels.append("toggle:first_phase_one_tick_short")
+            return False
         if any(f["signature"].get("obs") == "first_phase" for f in out.findings):
             return False  # reported once per case; the rest of the case is still checked
         out.add({"util": "ToggleSignal", "obs": "first_phase", "kind": "one_tick_short"},
